@@ -241,6 +241,21 @@ def gen_operand(rng, pool, ai, ctx, allow_sym=True, allow_shared=True):
         return {'k': 'dense', 'layout': 'canon', 'vals': vals}
     if isinstance(form, tuple) and form[0] == 'dense-bin':
         return {'k': 'dense', 'layout': 'bin', 'vals': vals}
+    gs_ = sorted({grade(k) for k in keys})
+    if keys and sorted(k for k in pool.canon if grade(k) in gs_) == sorted(keys) and rng.random() < 0.2:
+        # the named constructors (values in canonical order of the grades)
+        d_ = pool.d
+        names = {(1,): 'vector', (2,): 'bivector', (3,): 'trivector', (4,): 'quadvector', (0,): 'scalar',
+                 (d_,): 'pseudoscalar', (d_ - 1,): 'pseudovector', (d_ - 2,): 'pseudobivector'}
+        cands = [names[tuple(gs_)]] if tuple(gs_) in names else []
+        if gs_ == [g for g in range(d_ + 1) if g % 2 == 0]:
+            cands.append('evenmv')
+        if gs_ == [g for g in range(d_ + 1) if g % 2 == 1]:
+            cands.append('oddmv')
+        r = {'k': 'gr', 'grades': gs_, 'vals': vals}
+        if cands and rng.random() < 0.6:
+            r['ctor'] = rng.choice(cands)
+        return r
     u = rng.random()
     if u < 0.55 or not keys:
         return {'k': 'kv', 'keys': keys, 'vals': vals}
